@@ -1,0 +1,17 @@
+//go:build verif
+
+package wire
+
+import "sync/atomic"
+
+// VerifHook is invoked at every schedule point when the package is built with
+// the verif build tag. It allows the verification harness to hold a goroutine
+// at a named point until another goroutine has passed a chosen point.
+var VerifHook atomic.Pointer[func(point string)]
+
+func verifPoint(point string) {
+	hook := VerifHook.Load()
+	if hook != nil {
+		(*hook)(point)
+	}
+}
